@@ -409,7 +409,40 @@ fn length_ladder_part<V: Pq>(ctx: &mut Ctx, tier: Tier) {
     ctx.add_part(part);
 }
 
+/// our signatures at the edge of the fixed-size body (0..8 unused bits, or a first attempt that did not fit and
+/// was retried) must be accepted by the reference like any other
+fn tight_fit_part<V: Pq>(ctx: &mut Ctx) {
+    let n = V::N;
+    let (sk, pk) = crate::api::key::<V>(0);
+    let pkb = V::pk_to_bytes(&pk);
+    let (fit, retry) = crate::util::tight_fit_streams();
+    let mut part = Part::new(&format!("tight_fit_signatures_{}", n), "signer streams chosen so that the compressed s2 leaves 0..8 bits of the body unused, and streams whose first attempt overshoots the body (compression retry): our signature, relabelled with padding stripped, verifies in the reference");
+    for k in fit.into_iter().chain(retry) {
+        part.states += 1;
+        part.transitions += 2;
+        part.validated += 1;
+        let _ = falcon_rust::verif_hooks::take_loop_counters();
+        match catch(|| crate::util::with_stream(1_000_000 + k, || V::sign(b"exact fit", &sk))) {
+            Ok(sig) => {
+                let retried = falcon_rust::verif_hooks::take_loop_counters().1 > 1;
+                let ours = V::sig_to_bytes(&sig);
+                if V::pq_verify(&pq::rust_sig_to_pq(&ours), b"exact fit", &pkb) {
+                    part.outcome(if retried { "after a compression retry: verifies in the reference".to_string() } else { "verifies in the reference".to_string() });
+                } else {
+                    ctx.violation(format!("reference-rejects-our-signature:n={}:tight-fit", n), format!("{}: our signature made with signer stream {} ({}) is rejected by the reference verifier", V::name(), k, if retried { "compression retried" } else { "body filled to the last byte" }), json!({"kind":"tight","variant":n,"stream":k}));
+                }
+            }
+            Err(e) => ctx.violation(format!("sign-fails:n={}:tight-fit", n), format!("sign failed: {}", e), json!({"kind":"tight","variant":n,"stream":k})),
+        }
+    }
+    part.exhaustive = true;
+    ctx.add_part(part);
+}
+
 fn one_variant<V: Pq>(ctx: &mut Ctx, tier: Tier) {
+    if V::N == 1024 {
+        tight_fit_part::<V>(ctx);
+    }
     large_coefficient_part::<V>(ctx);
     norm_boundary_part::<V>(ctx);
     length_ladder_part::<V>(ctx, tier);
@@ -515,7 +548,7 @@ pub fn replay(case: &Value) -> Result<Option<String>, String> {
                 pq_key_case::<V1024>(&mut t, idx)
             }
         }
-        "large-coefficient" | "norm-boundary" | "length" => return Err("re-run ./vf check C16 (the family is enumerated deterministically)".into()),
+        "large-coefficient" | "norm-boundary" | "length" | "tight" => return Err("re-run ./vf check C16 (the family is enumerated deterministically)".into()),
         _ => return Err(format!("unknown kind {}", kind)),
     }
     Ok(t.found.into_iter().next().map(|(_, f)| f.what))
